@@ -474,14 +474,9 @@ func (b *RefinementBuilder) StringPrefixFull(prefix string) *RefinementBuilder {
 	// If we have a known string value then the given prefix must actually
 	// match it.
 	if b.orig.IsKnown() && !b.orig.IsNull() {
-		have := b.orig.AsString()
-		matchLen := len(have)
-		if l := len(prefix); l < matchLen {
-			matchLen = l
-		}
-		have = have[:matchLen]
-		new := prefix[:matchLen]
-		if have != new {
+		// The whole prefix must match: a prefix longer than the known string
+		// cannot be a prefix of it.
+		if !strings.HasPrefix(b.orig.AsString(), prefix) {
 			panic("refined prefix is inconsistent with known value")
 		}
 	}
